@@ -139,6 +139,7 @@ class Engine:
         self.call_stack = []
         self.frame_writes = None
         self.store_eqs = []
+        self.maxabs_reg = None
         self.taint = set()          # names of z3 constants standing for a symbolic weight (C16 non-interference)
         self.taint_hits = []
         self._taint_cache = {}
